@@ -74,6 +74,12 @@ void AttributesTools::getAttributesMap(
     {
       // Splitted line
       i++;
+      if (i == argv.size())
+      {
+        // The last line ends with a continuation mark: nothing follows.
+        arg = arg.substr(0, arg.length() - 1);
+        break;
+      }
       arg = arg.substr(0, arg.length() - 1) + argv2[i];
     }
     // Parsing:
